@@ -29,6 +29,15 @@ type c14Params struct {
 	Existing []bool `json:"existing"`
 	Mode     string `json:"mode"` // fail | stop | sequence | discard-fault | cli
 	Sequence string `json:"sequence,omitempty"`
+	Slash    bool   `json:"slash,omitempty"`     // branches 0 and 1 are called team/x and x (one name is the last path element of the other)
+	SameData bool   `json:"same_data,omitempty"` // on existing branches the staged table is the table the branch head already carries
+}
+
+func c14Name(p *c14Params, b int) string {
+	if p.Slash && b < 2 {
+		return []string{"team/x", "x"}[b]
+	}
+	return fmt.Sprintf("b%d", b)
 }
 
 type c14World struct {
@@ -67,11 +76,13 @@ func c14SetupOn(p *c14Params, file string) (*c14World, error) {
 	}
 	w.id = *idp
 	for b := 0; b < p.K; b++ {
-		name := fmt.Sprintf("b%d", b)
+		name := c14Name(p, b)
 		var parents [][]byte
+		var headTable []byte
 		if p.Existing[b] {
 			t := make([]byte, 16)
 			t[0], t[1] = 0xE0, byte(b)
+			headTable = t
 			sum, com, err := mon.SaveCommitObj(w.db, t, nil, "existing "+name, time.Unix(1600000000+int64(b), 0))
 			if err != nil {
 				return nil, err
@@ -86,6 +97,9 @@ func c14SetupOn(p *c14Params, file string) (*c14World, error) {
 		}
 		t := make([]byte, 16)
 		t[0], t[1] = 0x50, byte(b)
+		if p.SameData && headTable != nil {
+			t = headTable
+		}
 		w.tables[name] = t
 		w.msgs[name] = "staged " + name
 		ssum, _, err := mon.SaveCommitObj(w.db, t, parents, w.msgs[name], time.Unix(1600001000+int64(b), 0))
@@ -429,7 +443,7 @@ func c14Run(c *fw.Case, env *fw.Env) *fw.Obs {
 				}
 			}
 		}
-		o.Key("sequence/%s/%v", p.Sequence, p.Existing)
+		o.Key("sequence/%s/%v/slash=%v/same=%v", p.Sequence, p.Existing, p.Slash, p.SameData)
 		o.Sample = map[string]interface{}{"mode": "sequence", "sequence": p.Sequence, "branches": p.K, "existing": p.Existing}
 		return o
 	}
@@ -586,7 +600,7 @@ func c14Run(c *fw.Case, env *fw.Env) *fw.Obs {
 		}
 	}
 	o.Ev("distinct_post_fault_states", int64(len(distinctPost)))
-	o.Key("%s/%v", p.Mode, p.Existing)
+	o.Key("%s/%v/slash=%v/same=%v", p.Mode, p.Existing, p.Slash, p.SameData)
 	o.Sample = map[string]interface{}{"mode": p.Mode, "branches": p.K, "existing": p.Existing, "store_ops": total, "fault_positions_visited": total, "distinct_post_fault_states": len(distinctPost), "op_trace": pf.Trace}
 	return o
 }
@@ -637,6 +651,12 @@ func init() {
 				for _, mode := range []string{"fail", "stop", "discard-fault"} {
 					l.Add(mode, c14Params{K: len(mix), Existing: mix, Mode: mode}, 0)
 				}
+				if len(mix) >= 2 {
+					l.Add("fail", c14Params{K: len(mix), Existing: mix, Mode: "fail", Slash: true}, 0)
+					l.Add("sequence", c14Params{K: len(mix), Existing: mix, Mode: "sequence", Sequence: "commit,commit", Slash: true}, 0)
+				}
+				l.Add("fail", c14Params{K: len(mix), Existing: mix, Mode: "fail", SameData: true}, 0)
+				l.Add("sequence", c14Params{K: len(mix), Existing: mix, Mode: "sequence", Sequence: "commit,discard", SameData: true}, 0)
 				if len(mix) >= 2 && len(mix) <= 3 {
 					l.Add("foreign-reader", c14Params{K: len(mix), Existing: mix, Mode: "foreign-reader"}, 0)
 				}
